@@ -105,7 +105,7 @@ _public_ int m_mod_set_batch_timeout(m_mod_t *mod, uint64_t timeout_ns) {
 
     /* If it was already set, remove old timer */
     if (mod->batch.timer.ns != 0) {
-        m_mod_src_deregister_tmr(mod, &mod->batch.timer);
+        deregister_internal_tmr(mod, &mod->batch);
     }
     mod->batch.timer.clock_id = CLOCK_MONOTONIC;
     mod->batch.timer.ns = timeout_ns;
